@@ -13,7 +13,7 @@ Z_ = 'lobj._memzone'
 
 PLACE = dict(
     props=['C02', 'C05'],
-    where='loop[2].body', locals={'lobj': 'LineObject'},
+    where='loop[@for lobj in compilable_line_obs#0].body', locals={'lobj': 'LineObject'},
     requires=['line_wf(lobj)', 'place_wf(lobj)', f'zone_ok({Z_})', f'{Z_}._start >= 0',
               'implies(isa(lobj, "AddressOrgLine"), "GLOBAL" in lobj._memzone_manager._zones)',
               'implies(isa(lobj, "LabelLine"), lobj._label_scope is not None and scope_wf(lobj._label_scope))'],
@@ -85,7 +85,7 @@ LIST_OK = [
 
 OVERLAP = dict(
     props=['C04', 'C02', 'C14'], shards=12,
-    where='loop[3]', locals={LST: 'list[LineObject]', 'last_line': 'LineWithBytes?', 'lobj': 'LineObject'},
+    where='loop[@for lobj in compilable_line_obs#1]', locals={LST: 'list[LineObject]', 'last_line': 'LineWithBytes?', 'lobj': 'LineObject'},
     requires=LIST_OK + ['last_line is None',
                         all_lines(f'implies(is_bytes_line({Lj}), len({Lj}._bytes) == 0)')],
     may_raise={'SystemExit': 'True', 'ValueError': 'True', 'NotImplementedError': 'True'},
@@ -122,4 +122,4 @@ OVERLAP_INV = dict(
     ])
 
 contract(ENG, props=['C02', 'C04', 'C05', 'C14'], name='engine', blocks_only=True,
-         blocks={'place': PLACE, 'overlap': OVERLAP}, loops={'3': OVERLAP_INV})
+         blocks={'place': PLACE, 'overlap': OVERLAP}, loops={'@for lobj in compilable_line_obs#1': OVERLAP_INV})
